@@ -9,6 +9,7 @@
 package ocigen
 
 import (
+	"fmt"
 	"os"
 
 	"github.com/containerd/nri/pkg/api"
@@ -24,6 +25,74 @@ type C13Case struct {
 	// FromSpec selects how the runtime-tools generator is constructed: NewFromSpec(spec)
 	// (true) or the literal &Generator{Config: spec} used by the repository's own tests.
 	FromSpec bool `json:"from_spec,omitempty"`
+	// More are further adjustments applied, one after another, to the SAME generator and
+	// spec after Adj (a history of Adjust calls); the model folds them.
+	More []Adj `json:"more,omitempty"`
+	// Inject, when set, makes the CDI device injector callback behave like a real injector:
+	// whenever it is called (an adjustment with CDI devices) it appends to the spec.
+	Inject *Inject `json:"inject,omitempty"`
+}
+
+// Inject says what the CDI injector callback appends to the spec it is handed (the real
+// CDI ContainerEdits.Apply appends env, mounts, device nodes and hooks). The appended items
+// are a function of the step number, with names no spec or adjustment uses.
+type Inject struct {
+	HookKind string `json:"hook_kind,omitempty"` // "", prestart, createRuntime, createContainer, startContainer, poststart, poststop
+	Env      bool   `json:"env,omitempty"`
+	Mount    bool   `json:"mount,omitempty"`
+	Device   bool   `json:"device,omitempty"`
+}
+
+var hookKinds = []string{"prestart", "createRuntime", "createContainer", "startContainer", "poststart", "poststop"}
+
+func hookList(h *rspec.Hooks, kind string) *[]rspec.Hook {
+	switch kind {
+	case "prestart":
+		return &h.Prestart
+	case "createRuntime":
+		return &h.CreateRuntime
+	case "createContainer":
+		return &h.CreateContainer
+	case "startContainer":
+		return &h.StartContainer
+	case "poststart":
+		return &h.Poststart
+	case "poststop":
+		return &h.Poststop
+	}
+	return nil
+}
+
+func injectedHook(step int) rspec.Hook {
+	return rspec.Hook{Path: "/usr/bin/cdi-hook", Args: []string{"cdi-hook", fmt.Sprintf("step-%d", step)}}
+}
+
+func isInjectedHook(h rspec.Hook, step int) bool {
+	return h.Path == "/usr/bin/cdi-hook" && len(h.Args) == 2 && h.Args[1] == fmt.Sprintf("step-%d", step)
+}
+
+// apply appends the injected items to s (used by the injector callback on the real spec and
+// by the model on its own copy).
+func (inj *Inject) apply(s *rspec.Spec, step int) {
+	if inj == nil {
+		return
+	}
+	if l := hookList(&rspec.Hooks{}, inj.HookKind); l != nil {
+		if s.Hooks == nil {
+			s.Hooks = &rspec.Hooks{}
+		}
+		l = hookList(s.Hooks, inj.HookKind)
+		*l = append(*l, injectedHook(step))
+	}
+	if inj.Env && s.Process != nil {
+		s.Process.Env = append(s.Process.Env, fmt.Sprintf("CDI_INJECTED_%d=all", step))
+	}
+	if inj.Mount {
+		s.Mounts = append(s.Mounts, rspec.Mount{Destination: fmt.Sprintf("/cdi-lib%d", step), Type: "bind", Source: "/usr/lib/cdi", Options: []string{"ro", "nosuid"}})
+	}
+	if inj.Device && s.Linux != nil {
+		s.Linux.Devices = append(s.Linux.Devices, rspec.LinuxDevice{Path: fmt.Sprintf("/dev/cdi%d", step), Type: "c", Major: 195, Minor: int64(step), FileMode: fileMode(0o666)})
+	}
 }
 
 // KV is one ordered key/value entry; a key starting with "-" is a removal marker.
